@@ -15,7 +15,7 @@ fn main() {
     std::panic::set_hook(Box::new(|_| {}));
     let args: Vec<String> = std::env::args().collect();
     match args.get(1).map(|s| s.as_str()) {
-        Some("ops") => run_ops(),
+        Some("ops") => run_ops(args.get(2).map(|s| s.as_str()) == Some("flush")),
         Some("sweep") => sweep::main(&args[2..]),
         _ => {
             eprintln!("usage: pppharness ops | sweep <name> [args]");
@@ -24,7 +24,9 @@ fn main() {
     }
 }
 
-fn run_ops() {
+/// `flush`: write every result line out at once (used when a shard is re-evaluated after the
+/// process died, so that the operation responsible can be identified).
+fn run_ops(flush: bool) {
     let stdin = io::stdin();
     let stdout = io::stdout();
     let mut out = BufWriter::with_capacity(1 << 20, stdout.lock());
@@ -44,6 +46,9 @@ fn run_ops() {
         let res = ops::eval_line(l);
         let _ = out.write_all(res.as_bytes());
         let _ = out.write_all(b"\n");
+        if flush {
+            let _ = out.flush();
+        }
     }
     let _ = out.flush();
 }
